@@ -75,8 +75,9 @@ CHECKS = {
         ],
     },
     "C19": {
-        "rule": "archives: every entry sequence <=2 (quick) / <=3 (thorough) over hostile names x entry types x link targets through ExtractBinary; installs: every history <=3 of installs over index version/role/content x digest x verifier through the real Install + TrustedVerifier; crash: SIGKILL / EIO / ENOSPC injected at every file-system syscall of the real state/manifest write; concurrent: every order of 2-3 VerifyIndex calls queued on the state lock",
+        "rule": "gates: digest x fetch outcome x verifier behaviour x allow-unsigned x 64 policy-signal combinations x dry-run through the real Install; archives: every entry sequence <=2 (quick) / <=3 (thorough) over hostile names x entry types x link targets through ExtractBinary; installs: every history <=3 of installs over index version/role/content x digest x verifier through the real Install + TrustedVerifier; crash: SIGKILL / EIO / ENOSPC injected at every file-system syscall of the real state/manifest write; concurrent: every order of 2-3 VerifyIndex calls queued on the state lock",
         "parts": [
+            {"name": "gates", "pkg": "pkg/registry", "harness": "c19", "run": "^TestVerifC19Gates$", "shards": 8, "shards_thorough": 16},
             {"name": "archives", "pkg": "pkg/registry", "harness": "c19", "run": "^TestVerifC19Archives$", "shards": 8, "shards_thorough": 16},
             {"name": "installs", "pkg": "pkg/registry", "harness": "c19", "run": "^TestVerifC19Installs$", "shards": 16, "shards_thorough": 16},
             {"name": "crash", "pkg": "pkg/registry", "harness": "c19", "run": "^TestVerifC19Crash$", "shards": 8},
